@@ -83,3 +83,39 @@ Theorem c20_watcher_serial :
   watcher_action_calls <> [] /\ forallb (fun p => negb (snd p)) watcher_action_calls = true.
 Proof. split; [discriminate|vm_compute; reflexivity]. Qed.
 Print Assumptions c20_watcher_serial.
+
+(* ---- a reload is never missed: the watch is re-armed BEFORE the file is read again ---- *)
+From V.Lib Require Import Bytes.
+From V.Model Require Watch.
+From V.Proofs Require WatchProofs.
+From V.Gen Require Wiring.
+
+(* For EVERY sequence of in-place writes and replacements of the file and every placement of the event loop's steps
+   between them: with the order of the code (re-arm the watch, then reload) a loop that has come to rest - nothing
+   queued, no handler running - has loaded the file's current contents and is watching it. *)
+Theorem c20_rearm_then_reload_safe : forall evs,
+  Watch.quiescent (Watch.run Watch.RearmThenReload evs) = true ->
+  Watch.fresh (Watch.run Watch.RearmThenReload evs) = true /\ Watch.watched (Watch.run Watch.RearmThenReload evs) = true.
+Proof. exact WatchProofs.rearm_then_reload_safe. Qed.
+Print Assumptions c20_rearm_then_reload_safe.
+
+(* the two neighbouring orders lose an update for good: reloading before the re-arm (a write between the two is never
+   seen), and not re-arming (the second replacement is never seen) *)
+Theorem c20_reload_then_rearm_refuted :
+  exists evs, Watch.quiescent (Watch.run Watch.ReloadThenRearm evs) = true /\ Watch.fresh (Watch.run Watch.ReloadThenRearm evs) = false.
+Proof. exact WatchProofs.reload_then_rearm_refuted. Qed.
+Print Assumptions c20_reload_then_rearm_refuted.
+
+Theorem c20_reload_only_refuted :
+  exists evs, Watch.quiescent (Watch.run Watch.ReloadOnly evs) = true /\ Watch.fresh (Watch.run Watch.ReloadOnly evs) = false.
+Proof. exact WatchProofs.reload_only_refuted. Qed.
+Print Assumptions c20_reload_only_refuted.
+
+(* the Remove case of filterEvent REGENERATED from pkg/watcher/watcher.go on this run has the proved order: wait for the
+   file and re-arm (WaitForReplacement returns only after watcher.Add succeeded), then run the reload callback *)
+Theorem c20_watcher_remove_branch_pinned :
+  Wiring.watcher_remove_branch = [s "event.Op&fsnotify.Remove != 0"; s "WaitForReplacement(filename, event.Op, watcher)"; s "action()"] /\
+  Wiring.watcher_write_branch = [s "event.Op&(fsnotify.Create|fsnotify.Write) != 0"; s "action()"] /\
+  Wiring.wait_for_replacement_rearms = true.
+Proof. repeat split; vm_compute; reflexivity. Qed.
+Print Assumptions c20_watcher_remove_branch_pinned.
